@@ -7,7 +7,9 @@ import (
 	"math/rand"
 	"net"
 	"os"
+	"os/exec"
 	"strings"
+	"sync"
 	"time"
 
 	"verif/internal/fw"
@@ -24,6 +26,8 @@ type hostileCase struct {
 	Seed  int64 `json:"seed"`
 	NData int   `json:"n_datagrams"`
 }
+
+var unnumberedOnce sync.Once
 
 type hostileEngine struct{}
 
@@ -159,7 +163,24 @@ func (hostileEngine) Run(ctx *fw.Ctx, cs any) {
 		return
 	}
 	rng := rand.New(rand.NewSource(c.Seed))
-	job := &ChainJob{Sniff: []string{"ve1", "vf1"}, FrameWaitUs: 300,
+	// a third link whose server end carries no address of either family (unnumbered, IPv6 switched off): a
+	// wildcard listener still receives broadcasts on it (created once per worker, in its private namespace)
+	arrivals := []string{"ve0", "vf0"}
+	sniffOn := []string{"ve1", "vf1"}
+	unnumberedOnce.Do(func() {
+		exec.Command("ip", "link", "add", "vg0", "type", "veth", "peer", "name", "vg1").Run()
+		for _, i := range []string{"vg0", "vg1"} {
+			exec.Command("sysctl", "-qw", "net.ipv6.conf."+i+".disable_ipv6=1").Run()
+			exec.Command("ip", "link", "set", i, "up").Run()
+		}
+	})
+	if x, err := net.InterfaceByName("vg0"); err == nil {
+		if a, _ := x.Addrs(); len(a) == 0 {
+			arrivals, sniffOn = append(arrivals, "vg0"), append(sniffOn, "vg1")
+			ctx.Count("hostile.processes_with_an_unnumbered_link", 1)
+		}
+	}
+	job := &ChainJob{Sniff: sniffOn, FrameWaitUs: 300,
 		Files: map[string]string{
 			"leases4.txt": "02:00:00:00:00:01 10.77.3.1\n02:00:00:00:00:02 10.77.3.2\n00:11:22:33:44:55:66:77 10.77.3.3\n",
 			"leases6.txt": "02:00:00:00:00:01 2001:db8:3::1\n02:00:00:00:00:02 2001:db8:3::2\n"}}
@@ -189,7 +210,7 @@ func (hostileEngine) Run(ctx *fw.Ctx, cs any) {
 	var ms []meta
 	add := func(v6 bool, d []byte, kind string, canary bool) {
 		ms = append(ms, meta{v6, canary, d, kind})
-		r := ChainReq{V6: v6, Hex: hex.EncodeToString(d), RxIfName: []string{"ve0", "vf0"}[rng.Intn(2)]}
+		r := ChainReq{V6: v6, Hex: hex.EncodeToString(d), RxIfName: arrivals[rng.Intn(len(arrivals))]}
 		if v6 {
 			if rng.Intn(2) == 0 {
 				r.Peer, r.Port = fmt.Sprintf("fe80::%x", 1+rng.Intn(1000)), 546
